@@ -237,7 +237,7 @@ def build_design(seed, index, flags, work, race=False):
         f.write(dj)
     cmd = [designs.GENRUN, "run", "-design", os.path.join(wd, "design.json"), "-out", os.path.join(wd, "out"), "-glue"]
     try:
-        p = subprocess.run(cmd, capture_output=True, text=True, env=goenv(), timeout=180)
+        p = subprocess.run(cmd, capture_output=True, text=True, env=goenv(), timeout=180, preexec_fn=designs.limited())
         rep = json.loads(p.stdout)
     except Exception as ex:
         b.error = "genrun: %r" % ex
